@@ -45,7 +45,14 @@ def prepare_scratch(groups):
         mt = {}
     added = 0
     touched = {}
+    allg = []
     for g in groups:
+        for dgrp in GROUPS[g].get('deps', []):
+            if dgrp not in allg:
+                allg.append(dgrp)
+        if g not in allg:
+            allg.append(g)
+    for g in allg:
         G = GROUPS[g]
         for rel, harness_file in G.get('inject', []):
             p = os.path.join(d, rel)
@@ -53,7 +60,7 @@ def prepare_scratch(groups):
                 raise vxlib.LostAnchor(f'{rel} not found (group {g})')
             txt = touched.get(rel) or open(p).read()
             modname = 'vx_kani_' + os.path.splitext(os.path.basename(harness_file))[0]
-            line = f'\n#[cfg(kani)]\n#[path = "{os.path.join(KANI_DIR, harness_file)}"]\nmod {modname};\n'
+            line = f'\n#[cfg(kani)]\n#[path = "{os.path.join(KANI_DIR, harness_file)}"]\npub(crate) mod {modname};\n'
             if line not in txt:
                 txt += line
                 added += 4
@@ -277,6 +284,26 @@ def run_groups(prop, groups, tier, seed, known_ids):
     for r in results:
         r['wall_s'] = round(time.time() - t0, 2)
     return results
+
+
+def run_single(group, harness, timeout=1800, extra=()):
+    """development helper: run one harness alone, print verdict/time/peak memory"""
+    lock = open(os.path.join(CACHE, 'kani.lock'), 'w')
+    fcntl.flock(lock, fcntl.LOCK_EX)
+    try:
+        d, _ = prepare_scratch([group])
+        cmd = ['/usr/bin/time', '-v', 'cargo', 'kani', '-Z', 'function-contracts', '-Z', 'stubbing', '--output-format', 'terse', '--lib', '--harness', harness] + list(extra)
+        try:
+            p = subprocess.run(cmd, cwd=d, capture_output=True, text=True, timeout=timeout, env=kani_env())
+            out = p.stdout + p.stderr
+        except subprocess.TimeoutExpired as e:
+            out = 'TIMEOUT after %ds' % timeout
+            subprocess.run(['pkill', '-f', 'cbmc --no-malloc'])
+        keep = [l for l in out.splitlines() if re.search(r'VERIFICATION|Verification Time|Failed Checks|File:|Maximum resident|TIMEOUT|error|cover', l)]
+        print('\n'.join(keep[-25:]))
+    finally:
+        shutil.rmtree(os.path.join(SCRATCH_BASE, 'krill-k'), ignore_errors=True)
+        fcntl.flock(lock, fcntl.LOCK_UN)
 
 
 def playback(d, harness):
